@@ -15,12 +15,13 @@ class ProbeTable(object):
     * can hand out fresh mutable lists or the stored row objects themselves (aliasing tests).
     """
 
-    def __init__(self, hdr, rows=None, rowfn=None, fail_at=None, alias=False, log=None, name='src'):
+    def __init__(self, hdr, rows=None, rowfn=None, fail_at=None, alias=False, log=None, name='src', exc=None):
         self.hdr = hdr
         self._rows = rows
         self.rowfn = rowfn        # version -> list of rows
         self.version = 1
         self.fail_at = fail_at
+        self.exc = exc or InjectedFailure      # exception class raised at the failure point
         self.alias = alias
         self.pulls = 0
         self.datapulls = 0
@@ -39,21 +40,21 @@ class ProbeTable(object):
     def _gen(self, itid):
         rows = self.rows()
         if self.fail_at == 0:
-            raise InjectedFailure('header')
+            raise self.exc('header')
         self.pulls += 1
         if self.log is not None:
             self.log.append(('pull', self.name, itid, 0))
         yield self.hdr if self.alias else tuple(self.hdr)
         for i, r in enumerate(rows):
             if self.fail_at == i + 1:
-                raise InjectedFailure('row %d' % (i + 1))
+                raise self.exc('row %d' % (i + 1))
             self.pulls += 1
             self.datapulls += 1
             if self.log is not None:
                 self.log.append(('pull', self.name, itid, i + 1))
             yield r if self.alias else list(r)
         if self.fail_at == len(rows) + 1:
-            raise InjectedFailure('exhaustion')
+            raise self.exc('exhaustion')
         self.stops += 1
         if self.log is not None:
             self.log.append(('stop', self.name, itid, len(rows) + 1))
